@@ -88,7 +88,7 @@ KERNELS = [
          cxx_name="IterativeReconstruction<TargetT>::get_subset_num",
          func=r"IterativeReconstruction<TargetT>::get_subset_num\(\)", c_header="int K_get_subset_num(struct IR* self)", loops=0,
          rules=[(r"this->_current_subset_array = this->randomly_permute_subset_order\(\);",
-                 "{ struct IVEC K_tmp; K_randomly_permute_subset_order(self, &K_tmp); self->_current_subset_array = K_tmp; }", 1),  # returns by value, then assigned
+                 "{ struct IVEC K_tmp; K_randomly_permute_subset_order(self, &K_tmp); self->_current_subset_array = K_tmp; ++g_regen; }", 1),  # returns by value, then assigned
                 (r"this->_current_subset_array\[([^\]]+)\]", r"K_ivec_at(&self->_current_subset_array, \1)", 1),
                 (r"this->_current_subset_array\.get_length\(\)", "self->_current_subset_array.n", (0, 2)),
                 (r"\bthis->", "self->", (5, 12))]),
@@ -119,6 +119,7 @@ def _rpso_headers(gen_dir):
         L.append("#define RP_COUNT_T(m, g) (%s)" % summ(["((%d < (m) && %s == (g)) ? 1 : 0)" % (k, T(k)) for k in range(N)]))
         L.append("#define RP_COUNT_V(m, j, g) (%s)" % summ(["((%d < (m) && %s == (g)) ? 1 : 0)" % (k, V(k)) for k in range(N - 1)]))
         L.append("#define RP_COUNT_F(i, g) (%s)" % summ(["((%d < (i) && out->e[%d] == (g)) ? 1 : 0)" % (k, k) for k in range(N)]))
+        L.append("#define RP_COUNT_P(p, g) (%s)" % summ(["(((p)->e[%d] == (g)) ? 1 : 0)" % k for k in range(N)]))
         open(os.path.join(gen_dir, "rpso_inv_%d.h" % N), "w").write("\n".join(L) + "\n")
 
 
@@ -173,6 +174,10 @@ def jobs(tier, gen_dir):
                    expect_fail=r"K_randomly_permute_subset_order\.postcondition", no_base_flags=True, timeout=300, object_bits=10))
     for S in subsets:
         enforce("K_get_subset_num", repl=["K_randomly_permute_subset_order"], suffix="/S=%d" % S, defines={"C06_S": S}, params={"num_subsets": S})
+        if S <= 24 or tier == "thorough":
+            out.append(Job("c06/lemma_schedule_random/S=%d" % S, HARNESS, "h_lemma_schedule_random", kind="lemma", kernels=["K_get_subset_num"], flags=CHK,
+                           no_base_flags=True, min_obligations=1, timeout=TO, object_bits=10, replace=["K_get_subset_num"],
+                           defines={"C06_S": S}, params={"num_subsets": S}, backend="kissat"))
         out.append(Job("c06/lemma_schedule/S=%d" % S, HARNESS, "h_lemma_schedule", kind="lemma", kernels=["K_get_subset_num"], flags=CHK,
                        no_base_flags=True, min_obligations=1, timeout=TO, object_bits=10, replace=["K_get_subset_num"],
                        defines={"C06_S": S}, params={"num_subsets": S}, backend="kissat"))
@@ -184,6 +189,8 @@ def jobs(tier, gen_dir):
                    flags=CHK, no_base_flags=True, timeout=120, min_obligations=2, backend="kissat"))
     out.append(Job("c06/canary/K_sym_ctor_flags", HARNESS_S, "h_K_sym_ctor_flags", enforce="K_sym_ctor_flags", kernels=["K_sym_ctor_flags"], kind="canary", loop_contracts=True,
                    defines={"CANARY_K_sym_ctor_flags": None}, expect_fail=r"K_sym_ctor_flags\.postcondition", no_base_flags=True, timeout=120))
+    out.append(Job("c06/canary/lemma_schedule_random", HARNESS, "h_lemma_schedule_random", kind="canary", kernels=[], replace=["K_get_subset_num"], defines={"LEMMA_CANARY": None, "C06_S": 4},
+                   flags=[], no_base_flags=True, expect_fail=r"vacuity canary", timeout=300, object_bits=10))
     enforce("K_ir_reconstruct_loop", lc=True)
     out.append(Job("c06/canary/K_ir_reconstruct_loop", HARNESS, "h_K_ir_reconstruct_loop", enforce="K_ir_reconstruct_loop", kernels=["K_ir_reconstruct_loop"], kind="canary",
                    defines={"CANARY_K_ir_reconstruct_loop": None}, loop_contracts=True, expect_fail=r"K_ir_reconstruct_loop\.postcondition", no_base_flags=True, timeout=300,
@@ -251,6 +258,10 @@ def replay(job, o, workroot, repo):
         for start in (2, S, S + 1, 1):
             for r in (1, 0):
                 cands.append(["subset_num", S, start, 0, r, 3 * S])
+        # randomised order with a non-zero start subset, many full iterations (the permutation is random: repeat)
+        for SS in sorted({S, 3, 5, 8, 12}):
+            for stt in range(1, SS):
+                cands.append(["subset_num", SS, 1, stt, 1, 12 * SS])
     elif kern == "K_randomly_permute_subset_order":
         for SS in sorted({S, 2, 3, 5, 8, 13}):
             cands.append(["subset_num", SS, 1, 0, 1, 6 * SS])
